@@ -185,3 +185,15 @@ def sync_tree(root, sub, files):
             if rel not in files:
                 os.unlink(os.path.join(d, n))
     write_files(base, files)
+
+
+def query_paths(cwd, target, release=False):
+    """package name -> {src, build, dist} workspace paths of target and everything below it
+    (a separate `bob query-path` process)."""
+    argv = ["query-path", "-f", "{name}|{src}|{build}|{dist}"]
+    if release:
+        argv.append("--release")
+    r = run_bob(cwd, argv + [target, target + "//*"], record=False)
+    if r.rc != 0:
+        raise RuntimeError("query-path failed (rc=%s):\n%s" % (r.rc, r.out[-1500:]))
+    return parse_query(r.out)
